@@ -64,19 +64,22 @@ pub trait BackpressureStrategy {
 #[derive(Debug, Default)]
 pub struct ValueBackpressure {
     current: BytesMut,
+    // Whether a record is waiting in the buffer (an empty body is a valid record).
+    pending: bool,
 }
 
 impl ValueBackpressure {
     pub fn push_bytes(&mut self, body: Bytes) {
-        let ValueBackpressure { current } = self;
+        let ValueBackpressure { current, pending } = self;
 
         current.clear();
         current.reserve(body.len());
         current.put(body);
+        *pending = true;
     }
 
     pub fn has_data(&self) -> bool {
-        !self.current.is_empty()
+        self.pending
     }
 }
 
@@ -146,6 +149,7 @@ impl BackpressureStrategy for ValueBackpressure {
     fn prepare_write(&mut self, buffer: &mut BytesMut) {
         std::mem::swap(&mut self.current, buffer);
         self.current.clear();
+        self.pending = false;
     }
 }
 
